@@ -616,6 +616,10 @@ func c04WindowProgs() []*c04Prog {
 //   window-create-io      Create over an existing file (truncation in place under m.mu) ‖ Read, ReadAt,
 //                         Write, Truncate, Stat through another handle;
 //   window-meta-hstat     Chmod / Chtimes ‖ Stat through a handle (File.Stat) and by name.
+//   window-sparse-write   WriteAt / Seek+Write / Seek+WriteString more than 64 KiB beyond the end of the file ‖
+//                         File.Stat, Stat, Seek(0, end), ReadAt across the offset through another handle;
+//   window-readdir-big    ReadDir(-1) / ReadDir(0) (the fs.ReadDirFile spelling, item HReadDir) and Readdir(-1) of a
+//                         directory with 130 entries ‖ Remove, Create, Rename of an entry sorting first.
 func c04LockWindowProgs() []*c04Prog {
 	var out []*c04Prog
 	// ---- listings through directory handles ‖ namespace operations
@@ -745,6 +749,71 @@ func c04LockWindowProgs() []*c04Prog {
 				p.Setup = append(p.Setup, oOpen(s1, target))
 				p.Threads = [][]string{ch, rd}
 				out = append(out, c04ExpandStats(p))
+			}
+		}
+	}
+	// ---- one write far beyond the end of the file ‖ an observer of the size / of the tail.  The gap
+	// between the old end and the offset (more than 64 KiB here) and the bytes written appear in ONE
+	// section of the file's mutex: the observer sees the old file or a file of offset+len bytes, never
+	// a file that already ends at the offset (zero-filled) and does not hold the bytes yet
+	{
+		const off = 70000
+		writers := [][]string{
+			{hWriteAt(s0, "XY", off)},
+			{hSeek(s0, off, 0), hWrite(s0, "XY")},
+		}
+		// Stat by name: the lookup and the size accessor of the live FileInfo (the other accessors do not change here)
+		statSize := []string{c04Item(50, "Stat %s", c04hx("/f")), c04Item(-1, "FSize %d", 50)}
+		seekEnd := []string{hSeek(s1, 0, 2)}
+		observers := [][]string{
+			{hstat(s1)},
+			statSize,
+			seekEnd,
+			{hReadAt(s1, 4, off-1)},
+		}
+		add := func(content string, w, o []string) {
+			p := &c04Prog{Focus: "window-sparse-write"}
+			p.Setup = append(p.Setup, c04MkFile("/f", content)...)
+			p.Setup = append(p.Setup, oOpenFile(s0, "/f", os.O_RDWR, 0), oOpenFile(s1, "/f", os.O_RDWR, 0))
+			p.Threads = [][]string{w, o}
+			out = append(out, p)
+		}
+		for _, w := range writers {
+			for _, o := range observers {
+				add("", w, o)
+			}
+		}
+		// a file that is not empty; WriteString after a Seek; a second far write below the first
+		add("abcd", writers[0], seekEnd)
+		add("abcd", writers[0], observers[3])
+		add("", []string{hSeek(s0, off, 0), c04Item(-1, "HWriteString %d %s", s0, c04hx("XY"))}, seekEnd)
+		add("abcd", []string{hWriteAt(s0, "XY", 2*off)}, []string{hWriteAt(s1, "Z", off), hSeek(s1, 0, 2)})
+	}
+	// ---- the whole listing of a directory with more entries than any batch size (130 > 128) through
+	// the io/fs spelling ReadDir(-1) / ReadDir(0) ‖ an entry that sorts in front of all the others going
+	// away or appearing: the listing is the directory with or without THAT entry, every other entry
+	// exactly once (a listing fetched in several sections would skip or repeat the entry at the seam)
+	{
+		const nfiles = 130
+		bigSetup := func() []string {
+			st := []string{oMkdir("/d", 0o755)}
+			for i := 0; i < nfiles; i++ {
+				st = append(st, oCreate(1, fmt.Sprintf("/d/c%03d", i)))
+			}
+			return append(st, oOpen(hd, "/d"))
+		}
+		readDir := func(h, n int) string { return c04Item(-1, "HReadDir %d %d", h, n) }
+		for _, ls := range [][]string{{readDir(hd, -1)}, {readDir(hd, 0)}, {infos(hd, -1)}} {
+			for _, m := range [][]string{
+				{oRemove("/d/c000")},
+				{oCreate(c04Slot(1, 0), "/d/a")},
+				{oRename("/d/c000", "/g")},
+				{oRename("/d/c000", "/d/zzz")}, // from the front of the listing to its end
+			} {
+				if ls[0] != readDir(hd, -1) && m[0] != oRemove("/d/c000") {
+					continue
+				}
+				out = append(out, &c04Prog{Focus: "window-readdir-big", Setup: bigSetup(), Threads: [][]string{ls, m}})
 			}
 		}
 	}
